@@ -50,4 +50,49 @@ theorem commands_outside_straight_line :
        "TransactionRequest", "WriteAndCloseRequest", "WriteAndxRequest", "WriteRawRequest",
        "WriteRequest"] := by decide +kernel
 
+/-- **Loops over list fields, proved**: of the commands outside the straight-line fragment exactly these five
+    pass `ConformsLists` — `Conforms`, and nothing but straight-line statements and `range` loops over a
+    field declared as an array of integers (little-endian at the element width) or as a list of the nested
+    structure marshalled.  `conforms_lists_sound` (Props/C05.lean) turns this into: for all field values
+    the bytes `Marshal` emits are those of `Spec.Cifs.encodeLists`. -/
+theorem lists_conforming_commands :
+    (commands.filter (fun c => (layoutM c.marshal).isNone && ConformsLists c)).map (·.name) =
+      ["FindResponse", "FindUniqueResponse", "LockingAndxRequest", "OpenAndxRequest", "TransactionRequest"] := by
+  decide +kernel
+
+/-- `ConformsLists` extends the straight-line case: every straight-line command that passes `Conforms`
+    passes it too (there `Spec.Cifs.encodeLists` and `Spec.Cifs.encode` are the same encoder) -/
+theorem lists_conforming_extends :
+    commands.all (fun c => !(Conforms c && (layoutM c.marshal).isSome) || ConformsLists c) = true := by
+  decide +kernel
+
+/-- **One optional parameter field, proved**: exactly these three commands pass `ConformsOptional` —
+    `Conforms`, one statement `if c.F != 0 { … }` whose body emits `F` (full declared width, little-endian)
+    into the parameter block and nothing else, no other emission of `F`, everything else straight-line or
+    a loop.  `conforms_optional_sound` turns this into: for all field values the bytes are those of
+    `Spec.Cifs.encodeOptional` (short form for a zero field, long form otherwise). -/
+theorem optional_conforming_commands :
+    (commands.filter ConformsOptional).map (fun c => (c.name, Manticore.Spec.Cifs.optionalFields c.marshal)) =
+      [("WriteAndCloseRequest", ["Reserved"]), ("WriteAndxRequest", ["OffsetHigh"]),
+       ("WriteRawRequest", ["OffsetHigh"])] := by decide +kernel
+
+/-- **What is still outside every proved fragment**: of the ten commands outside the straight-line
+    fragment, two pass neither `ConformsLists` nor `ConformsOptional` — `ReadRawRequest` emits `OffsetHigh`
+    under a condition on the word count its own `Marshal` is still building (never true: the field is
+    never sent — C04 finding `conditional-field`), `WriteRequest` puts its buffer ahead of the parameter
+    block (already in `non_conforming_commands`).  On these the three MS-CIFS encoders are silent and only
+    the differential run speaks. -/
+theorem commands_outside_proved_fragments :
+    (commands.filter (fun c => (layoutM c.marshal).isNone && !ConformsLists c && !ConformsOptional c)).map
+        (fun c => (c.name, extFailures c)) =
+      [("ReadRawRequest", ["a field emitted under a condition on WordCount", "statement shape"]),
+       ("WriteRequest", ["bytes ahead of the parameter block", "statement shape",
+          "int-width/endianness or bytes ahead of the parameter block"])] := by decide +kernel
+
+/-- the nested structures `Marshal` loops over (`for _, x := range c.F { x.Marshal() }`) are these two -/
+theorem list_element_types :
+    commands.all (fun c => c.marshal.all (fun s => match s with
+      | .forSub _ _ typ => ["LOCKING_ANDX_RANGE64", "SMB_DIRECTORY_INFORMATION"].contains typ
+      | _ => true)) = true := by decide +kernel
+
 end Manticore.C05
